@@ -15,6 +15,7 @@ import (
 	"strconv"
 	"strings"
 	"sync"
+	"sync/atomic"
 	"time"
 
 	"rivaas.dev/app"
@@ -59,6 +60,13 @@ type cfgT struct {
 	// WarmupAfter > 0: an explicit Warmup() after that many routes have been registered, the rest is registered
 	// afterwards, still before the first request (allowed; they go straight into the trees): same outcome
 	WarmupAfter int
+	// none of the following is a model input either (the outcome must be the same):
+	NoCancelCheck bool   `json:",omitempty"` // router.WithoutCancellationCheck()
+	Observer      bool   `json:",omitempty"` // version.WithObserver with all four callbacks
+	ObsPanic      string `json:",omitempty"` // this callback panics: D OnDetected, M OnMissing, I OnInvalid, U OnDeprecatedUse
+	// Tick != 0: the injected clock ADVANCES — the first reading is Now, every later one Now+Tick seconds. The answer
+	// must be the one a constant clock gives at one of the two instants (see observe)
+	Tick int64 `json:",omitempty"`
 
 	vers []string // generator only: versions that have a tree
 }
@@ -68,6 +76,11 @@ type reqT struct {
 	Path     string
 	RawQuery string
 	Hdr      [][2]string // added in order with Header.Add
+	// Cancelled: the request context is already cancelled when the request arrives (the router is then built with
+	// WithoutCancellationCheck, so that the handler chain runs as usual); Panic: the handler panics after it has
+	// reported (only in request sequences: what the NEXT requests see is what is judged)
+	Cancelled bool `json:",omitempty"`
+	Panic     bool `json:",omitempty"`
 }
 
 type caseT struct {
@@ -89,11 +102,13 @@ type concT struct {
 type obsKeyT struct{}
 
 type obsT struct {
-	panicked bool
-	status   int
-	ran      []routeT
-	version  string
-	hdr      http.Header
+	wantPanic bool // in: the handler is to panic
+	obsFired  bool // an observer callback panicked during this request
+	panicked  bool
+	status    int
+	ran       []routeT
+	version   string
+	hdr       http.Header
 }
 
 func (l lcT) time() time.Time {
@@ -138,8 +153,32 @@ func build(k caseT) (r *router.Router, err error) {
 		vo = append(vo, version.WithSunsetEnforcement())
 	}
 	now := time.Unix(k.C.Now, 0).UTC()
-	vo = append(vo, version.WithClock(func() time.Time { return now }))
+	later := now.Add(time.Duration(k.C.Tick) * time.Second)
+	var reads atomic.Int64
+	vo = append(vo, version.WithClock(func() time.Time {
+		if reads.Add(1) > 1 {
+			return later
+		}
+		return now
+	}))
+	if k.C.Observer || k.C.ObsPanic != "" {
+		cb := func(which string) {
+			if k.C.ObsPanic == which {
+				obsPanicFired.Store(true)
+				panic("observer callback " + which)
+			}
+		}
+		vo = append(vo, version.WithObserver(
+			version.OnDetected(func(string, string) { cb("D") }),
+			version.OnMissing(func() { cb("M") }),
+			version.OnInvalid(func(string) { cb("I") }),
+			version.OnDeprecatedUse(func(string, string) { cb("U") }),
+		))
+	}
 	ro := []router.Option{router.WithVersioning(vo...)}
+	if k.C.NoCancelCheck || k.Q.Cancelled {
+		ro = append(ro, router.WithoutCancellationCheck())
+	}
 	if k.C.Compiled {
 		ro = append(ro, router.WithRouteCompilation(true))
 	}
@@ -178,6 +217,9 @@ func build(k caseT) (r *router.Router, err error) {
 			if o, ok := c.Request.Context().Value(obsKeyT{}).(*obsT); ok { // per request: handlers are shared
 				o.ran = append(o.ran, rt)
 				o.version = c.Version()
+				if o.wantPanic {
+					panic("handler panic (requested by the case)")
+				}
 			}
 			_ = c.String(http.StatusOK, "ok")
 		}
@@ -218,10 +260,21 @@ func mkReq(q reqT) *http.Request {
 }
 
 // serveOne runs one request on the router and returns what was observed for THAT request.
+// obsPanicFired: an observer callback panicked (only in single-request cases: one request at a time).
+var obsPanicFired atomic.Bool
+
 func serveOne(r *router.Router, q reqT) (o obsT) {
 	req := mkReq(q)
-	req = req.WithContext(context.WithValue(req.Context(), obsKeyT{}, &o))
+	ctx := context.WithValue(req.Context(), obsKeyT{}, &o)
+	if q.Cancelled {
+		var cancel context.CancelFunc
+		ctx, cancel = context.WithCancel(ctx)
+		cancel()
+	}
+	req = req.WithContext(ctx)
+	o.wantPanic = q.Panic
 	rec := httptest.NewRecorder()
+	obsPanicFired.Store(false)
 	func() {
 		defer func() {
 			if p := recover(); p != nil {
@@ -230,17 +283,44 @@ func serveOne(r *router.Router, q reqT) (o obsT) {
 		}()
 		r.ServeHTTP(rec, req)
 	}()
+	o.obsFired = obsPanicFired.Load()
 	o.status = rec.Code
 	o.hdr = rec.Header()
 	return o
 }
 
-func observe(k caseT) (o obsT, cfgErr error) {
+// observe: the observation and the case it is reported for. With an advancing clock (Tick != 0) the statement
+// asks for the answer of ONE instant: the observation is compared with what the same tree answers under a
+// constant clock at Now and at Now+Tick; if it equals one of them the case is reported for that instant (and
+// judged there), otherwise as it is, for Now — a mixture of two instants agrees with the model at neither.
+func observe(k caseT) (o obsT, kk caseT, cfgErr error) {
 	r, err := build(k)
 	if err != nil {
-		return o, err
+		return o, k, err
 	}
-	return serveOne(r, k.Q), nil
+	o = serveOne(r, k.Q)
+	if k.C.Tick == 0 {
+		return o, k, nil
+	}
+	k0 := k
+	k0.C.Tick = 0
+	r0, err := build(k0)
+	if err != nil {
+		return o, k, nil
+	}
+	if o0 := serveOne(r0, k.Q); o0.key() == o.key() {
+		return o, k, nil
+	}
+	k1 := k0
+	k1.C.Now += k.C.Tick
+	r1, err := build(k1)
+	if err != nil {
+		return o, k, nil
+	}
+	if o1 := serveOne(r1, k.Q); o1.key() == o.key() {
+		return o, k1, nil
+	}
+	return o, k, nil
 }
 
 func (o obsT) key() string {
@@ -310,6 +390,9 @@ func runConc(idPrefix string, k caseT, qs []reqT, G, N int, only int, st *hx.Sta
 		if only >= 0 && idx != only {
 			continue
 		}
+		if qs[idx].Panic {
+			continue // aborted by its own handler: only a disturbance for the others
+		}
 		kk := k
 		kk.Q = qs[idx]
 		kk.Conc = &concT{G: G, N: N, Qs: qs, Idx: idx}
@@ -339,14 +422,39 @@ func isLCEmpty(lc lcT) bool { return !lc.Deprecated && !lc.HasSunset && lc.Migra
 // emit renders the case line: configuration, routes, request with the shipped library results, and
 // what the implementation did. ok=false: the configuration was rejected by router.New (no line).
 func emit(id string, k caseT, st *hx.Stats) (string, bool) {
-	o, cfgErr := observe(k)
+	o, kk, cfgErr := observe(k)
 	if cfgErr != nil {
 		if st != nil {
 			st.Count("config_rejected")
 		}
 		return "", false
 	}
-	return emitObs(id, k, o, st), true
+	if st != nil {
+		if k.C.Tick != 0 {
+			st.Count("advancing_clock")
+			if kk.C.Now != k.C.Now {
+				st.Count("advancing_clock_answer_of_the_later_instant")
+			}
+		}
+		if k.Q.Cancelled {
+			st.Count("request_context_already_cancelled")
+		}
+		if k.C.Observer || k.C.ObsPanic != "" {
+			st.Count("observer_configured")
+		}
+	}
+	if o.panicked && o.obsFired {
+		// the observer callback's panic reached the caller: the request was aborted, no handler ran — nothing the
+		// statement speaks about. (A panic that is swallowed leaves a served request, judged like any other.)
+		if st != nil {
+			st.Count("observer_panic_propagated_request_aborted")
+		}
+		return "", false
+	}
+	if st != nil && o.obsFired {
+		st.Count("observer_panic_swallowed")
+	}
+	return emitObs(id, kk, o, st), true
 }
 
 // emitObs renders the case line for an observation already made.
@@ -838,11 +946,35 @@ func genCase(r *hx.Rand) caseT {
 			hx.Shuffle(r, k.R)
 		}
 	}
+	// faults and environment that are not model inputs
+	if r.Chance(1, 6) {
+		c.Observer = true
+	}
+	if r.Chance(1, 10) {
+		c.ObsPanic = hx.Pick(r, []string{"D", "D", "M", "I", "U"})
+	}
+	if r.Chance(1, 5) { // an advancing clock around a sunset date
+		var ss []int64
+		for _, lc := range c.LCs {
+			if lc.HasSunset {
+				ss = append(ss, lc.Sunset)
+			}
+		}
+		if len(ss) > 0 {
+			c.Now = hx.Pick(r, ss) - int64(r.Range(0, 2))
+			c.Tick = int64(r.Range(1, 4))
+			c.Enforce = c.Enforce || r.Chance(2, 3)
+		}
+	}
 	k.Q = genReq(r, &k)
+	if r.Chance(1, 10) {
+		k.Q.Cancelled = true
+	}
 	if c.WarmupAfter > 0 && r.Chance(2, 3) { // mostly ask for a route registered after the warm-up
 		rt := k.R[r.Range(c.WarmupAfter, len(k.R)-1)]
 		keep := k.Q
 		k.Q = genReq(r, &k)
+		k.Q.Cancelled = keep.Cancelled
 		if !rt.Versioned || rt.Path == "" {
 			k.Q = keep
 		} else {
@@ -933,6 +1065,7 @@ func concBatches(seed uint64, r *hx.Rand, n int, st *hx.Stats, w func(string)) {
 				break
 			}
 		}
+		k.C.ObsPanic, k.C.Tick, k.Q.Cancelled = "", 0, false
 		var vs []reqT
 		for i := 0; i < r.Range(4, 6); i++ {
 			q := genReq(r, &k)
@@ -960,6 +1093,52 @@ func concBatches(seed uint64, r *hx.Rand, n int, st *hx.Stats, w func(string)) {
 		}
 		for _, l := range runConc(fmt.Sprintf("c13c-%d-%d", seed, b), k, vs, G, 300, -1, st) {
 			w(l)
+		}
+	}
+}
+
+// seqBatches: request SEQUENCES on one router from one goroutine (G = 1), some of whose handlers panic after
+// reporting (the harness recovers, as net/http does per connection). Judged: every request whose handler does not
+// panic, by the ordinary per-request oracle — what an aborted request leaves behind must not reach the next one.
+func seqBatches(seed uint64, r *hx.Rand, n int, st *hx.Stats, w func(string)) {
+	for b := 0; b < n; b++ {
+		var k caseT
+		for try := 0; try < 50; try++ {
+			k = genCase(r)
+			nv, nu := 0, 0
+			for _, rt := range k.R {
+				if rt.Versioned {
+					nv++
+				} else {
+					nu++
+				}
+			}
+			if nv > 0 && (nu > 0 || try > 25) && !k.C.ViaApp {
+				break
+			}
+		}
+		k.C.ObsPanic, k.C.Tick, k.Q.Cancelled = "", 0, false
+		if b%2 == 0 {
+			// an unversioned route of its own: "reports none", also after a panic (routes of the model are static paths)
+			k.R = append(k.R, routeT{Method: "GET", Path: "/zz-plain"})
+			k.R = dedupRoutes(k.R)
+		}
+		var qs []reqT
+		for i := 0; i < r.Range(4, 8); i++ {
+			q := genReq(r, &k)
+			if r.Chance(1, 3) {
+				q.Panic = true
+			}
+			qs = append(qs, q)
+			if b%2 == 0 && r.Chance(1, 2) {
+				qs = append(qs, reqT{Method: "GET", Path: "/zz-plain", Hdr: [][2]string{}})
+			}
+		}
+		for _, l := range runConc(fmt.Sprintf("c13s-%d-%d", seed, b), k, qs, 1, 3*len(qs), -1, st) {
+			w(l)
+		}
+		if st != nil {
+			st.Count("request_sequences_with_panicking_handlers")
 		}
 	}
 }
@@ -1027,6 +1206,21 @@ func fixedCases() []caseT {
 		// boundaries: deprecated with future sunset; sunset exactly now
 		witness(qv, []lcT{{Ver: "v1", Deprecated: true, HasSunset: true, Sunset: 1750000000 + 86400, Migration: "https://d/m"}}, true, reqT{Method: "GET", Path: "/users"}),
 		witness(qv, []lcT{{Ver: "v1", Deprecated: true, HasSunset: true, Sunset: 1750000000}}, true, reqT{Method: "GET", Path: "/users"}),
+		// seeded C13-14 class: the request context is already cancelled; a version past its sunset date / a deprecated one
+		witness(qv, []lcT{{Ver: "v2", HasSunset: true, Sunset: 1750000000 - 86400}}, true, reqT{Method: "GET", Path: "/users", RawQuery: "v=v2", Cancelled: true}),
+		witness(qv, []lcT{{Ver: "v2", Deprecated: true}}, false, reqT{Method: "GET", Path: "/users", RawQuery: "v=v2", Cancelled: true}),
+		// seeded C13-15 class: the clock advances during the request, the sunset date lies between two readings
+		func() caseT {
+			k := witness(qv, []lcT{{Ver: "v2", Deprecated: true, HasSunset: true, Sunset: 1750000000, Migration: "https://d/m"}}, true, reqT{Method: "GET", Path: "/users", RawQuery: "v=v2"})
+			k.C.Tick = 1
+			return k
+		}(),
+		// seeded C13-16 class: observer callbacks that do nothing
+		func() caseT {
+			k := witness(qv, []lcT{{Ver: "v2", Deprecated: true}}, false, reqT{Method: "GET", Path: "/users", RawQuery: "v=v2"})
+			k.C.Observer = true
+			return k
+		}(),
 	}
 }
 
@@ -1053,6 +1247,7 @@ func main() {
 			nb = 40
 		}
 		concBatches(a.Seed, r, nb, st, func(l string) { fmt.Fprintln(w, l) })
+		seqBatches(a.Seed, r, 50*nb, st, func(l string) { fmt.Fprintln(w, l) })
 		st.Emit(w)
 	case "replay":
 		for _, line := range hx.StdinLines() {
